@@ -1,0 +1,24 @@
+//go:build verif
+
+// Contracts for package types of 26-routing (comment-only; read by /verif's tibcvc).
+package types
+
+//@ spec hasRoute(port: str): bool
+//@ spec routeOf(port: str): obj
+
+//@ extern (*Router).GetRoute(port) (cbs, ok)
+//@   ensures def: (ok <==> hasRoute(port)) && (ok ==> cbs == routeOf(port) && cbs != nil) && (!ok ==> cbs == nil)
+
+// What the packet layer may assume of an application callback, and what it owes it: a packet is handed to
+// OnRecvPacket at most once per (source, destination, sequence) over the life of the chain (ghost set `delivered`),
+// likewise OnAcknowledgementPacket (`acked`). Callbacks change application state and events, never the tibc store
+// (for the two in-repo apps that is an obligation on their callbacks, see C19).
+//@ iface TIBCModule.OnRecvPacket(ctx, packet) (res, ack, err)
+//@   modifies delivered, app, events
+//@   requires once: !delivered[receipt(packet.SourceChain, packet.DestinationChain, packet.Sequence)]
+//@   ensures  mark: delivered == old(delivered)[receipt(packet.SourceChain, packet.DestinationChain, packet.Sequence) := true]
+//@
+//@ iface TIBCModule.OnAcknowledgementPacket(ctx, packet, acknowledgement) (res, err)
+//@   modifies acked, app, events
+//@   requires once: !acked[commit(packet.SourceChain, packet.DestinationChain, packet.Sequence)]
+//@   ensures  mark: acked == old(acked)[commit(packet.SourceChain, packet.DestinationChain, packet.Sequence) := true]
